@@ -112,7 +112,10 @@ func csvDecodeFnBody(fn string, value rel.Value, config decodeConfig) (rel.Value
 	case rel.Bytes:
 		bs = t.Bytes()
 	default:
-		return nil, errors.Errorf("first arg to %s must be string or bytes, not %s", fn, rel.ValueTypeAsString(value))
+		// The empty string (and empty bytes, e.g. the encoding of []) is the empty set.
+		if s, is := value.(rel.Set); !is || s.IsTrue() {
+			return nil, errors.Errorf("first arg to %s must be string or bytes, not %s", fn, rel.ValueTypeAsString(value))
+		}
 	}
 
 	reader := csv.NewReader(bytes.NewBuffer(bs))
